@@ -49,8 +49,10 @@ Method(kind, N, M, intg, grid) ==
 Base == [t0 |-> Num(Zero), T |-> Num(One),
          states |-> <<>>, controls |-> <<>>, algs |-> <<>>, params |-> <<>>, vars |-> <<>>,
          pq |-> Q(7, 4),       \* value of the parent's own parameter (multi-stage scenarios)
+         catset |-> FALSE, zblocks |-> <<>>,
          xblocks |-> <<>>, pblocks |-> <<>>,     \* grouping of consecutive scalar symbols into matrix-valued rockit symbols (<<>> = all scalar)
          dyn |-> "ode", rhs |-> <<>>, alg |-> <<>>, quads |-> <<>>,
+         qstates |-> FALSE,      \* TRUE: every integrand of quads is also declared as a quadrature state (state(quad=True)), read as QS(i)
          cons |-> <<>>, obj |-> <<>>, init |-> <<>>, reads |-> <<>>,
          method |-> Method("MS", 1, 1, "rk", Uniform)]
 
@@ -91,11 +93,24 @@ R6(N) == [Base EXCEPT !.states = <<S1>>, !.controls = <<Sym1>>, !.algs = <<Sym1>
                       !.rhs = <<Plus(Times(Z(1), U(1)), Tm)>>,
                       !.alg = <<Minus(Minus(Z(1), Times(CI(2), X(1))), CI(1))>>]
 
+\* RD:  x' = z1 u + z3 + t ,  0 = z1 - 2x - 1 ,  0 = z2 - x + u ,  0 = z3 - z1 - z2
+\*      (index-1 DAE whose first algebraic variable is the 2x1 vector (z1, z2), followed by the scalar z3; DirectCollocation only)
+RD(N) == [Base EXCEPT !.states = <<S1>>, !.controls = <<Sym1>>, !.algs = <<Sym1, Sym1, Sym1>>, !.zblocks = <<<<2, 1>>, <<1, 1>>>>,
+                      !.rhs = <<Plus3(Times(Z(1), U(1)), Z(3), Tm)>>,
+                      !.alg = <<Minus(Minus(Z(1), Times(CI(2), X(1))), CI(1)), Plus(Minus(Z(2), X(1)), U(1)), Minus(Minus(Z(3), Z(1)), Z(2))>>]
+
 \* R8:  2x2 matrix state X (column-major x1..x4), 2x2 matrix parameter P:  x_i' = p_i x_i + i u
 R8(N) == [Base EXCEPT !.states = <<S1, S1, S1, S1>>, !.controls = <<Sym1>>,
                       !.params = Tup([i \in 1..4 |-> [kind |-> "g", val |-> <<Q(i, 2)>>]]),
                       !.xblocks = <<<<2, 2>>>>, !.pblocks = <<<<2, 2>>>>,
                       !.rhs = Tup([i \in 1..4 |-> Plus(Times(P(i), X(i)), Times(CI(i), U(1)))])]
+\* R9:  R8 followed by a scalar state x5 and a scalar parameter p5:  x5' = p5 x5 + x1.  catset: dynamics and parameter values
+\*      are given through ONE concatenated assignment each -- set_der(veccat(X, x5), ...), set_value(veccat(P, p5), ...) --
+\*      whose meaning is the element-wise one (column-major within the matrix, then the scalar)
+R9(N) == [Base EXCEPT !.states = <<S1, S1, S1, S1, S1>>, !.controls = <<Sym1>>,
+                      !.params = Tup([i \in 1..5 |-> [kind |-> "g", val |-> <<Q(i, 2)>>]]),
+                      !.xblocks = <<<<2, 2>>, <<1, 1>>>>, !.pblocks = <<<<2, 2>>, <<1, 1>>>>, !.catset = TRUE,
+                      !.rhs = Tup([i \in 1..5 |-> IF i <= 4 THEN Plus(Times(P(i), X(i)), Times(CI(i), U(1))) ELSE Plus(Times(P(5), X(5)), X(1))])]
 \* R3v: R3 with the two states declared as one 2x1 vector state
 R3v(N) == [R3(N) EXCEPT !.xblocks = <<<<2, 1>>>>]
 
@@ -108,9 +123,14 @@ RA(N) == [Base EXCEPT !.states = <<S1>>, !.controls = <<Sym1>>,
 RB(N) == [Base EXCEPT !.states = <<S1>>, !.controls = <<Sym1>>, !.vars = <<[kind |-> "cp", scale |-> One]>>,
                       !.rhs = <<Plus3(Times(CI(2), X(1)), U(1), V(1))>>]
 
+\* RC:  x' = vc x + vcp t + u + v   (all three kinds of variables in the dynamics; declared in the order cp, c, global)
+RC(N) == [Base EXCEPT !.states = <<S1>>, !.controls = <<Sym1>>,
+                      !.vars = <<[kind |-> "cp", scale |-> One], [kind |-> "c", scale |-> One], [kind |-> "g", scale |-> One]>>,
+                      !.rhs = <<Plus(Plus3(Times(V(2), X(1)), Times(V(1), Tm), U(1)), V(3))>>]
+
 RhsIds == {"R1", "R2", "R3", "R4", "R5", "R7"}
 Rhs(id, N) == CASE id = "R1" -> R1(N) [] id = "R2" -> R2(N) [] id = "R3" -> R3(N)
-                [] id = "R4" -> R4(N) [] id = "R5" -> R5(N) [] id = "R7" -> R7(N) [] id = "R6" -> R6(N) [] id = "R8" -> R8(N) [] id = "R3v" -> R3v(N) [] id = "RA" -> RA(N) [] id = "RB" -> RB(N)
+                [] id = "R4" -> R4(N) [] id = "R5" -> R5(N) [] id = "R7" -> R7(N) [] id = "R6" -> R6(N) [] id = "RD" -> RD(N) [] id = "R8" -> R8(N) [] id = "R9" -> R9(N) [] id = "R3v" -> R3v(N) [] id = "RA" -> RA(N) [] id = "RB" -> RB(N) [] id = "RC" -> RC(N)
 
 (***************************************************************************)
 (* Path / boundary constraints (all well-formed for every rhs above:       *)
@@ -136,12 +156,15 @@ KMp == Con("kMp", "le", Minus(Off(P(1), 1), X(1)), CI(4), "control", TRUE, TRUE)
 \* vector-valued path constraint with element-wise scale
 KV == VCon("kV", <<X(1), Times(U(1), Tm)>>, <<CI(5), Plus(CI(3), X(1))>>, "control", TRUE, FALSE, <<R(2), Q(1, 2)>>)
 ConIds == {"k1", "k2", "k3", "k4", "k5", "k6", "k7", "k8", "k9", "kA", "kB"}
+\* offsets of magnitude two and more: instances exist only where node k + o lies inside the horizon (nothing wraps around)
+KC == Con("kC", "le", Minus(X(1), Off(X(1), -2)), CI(3), "control", TRUE, TRUE)
+KD == Con("kD", "ge", Plus(Off(U(1), -2), Off(X(1), 1)), CI(-8), "control", TRUE, TRUE)
 KW == VBox("kW", <<InfE, CI(-1)>>, <<X(1), Plus(U(1), X(1))>>, <<CI(5), CI(7)>>, "control", TRUE, FALSE)
 KX == VBox("kX", <<CI(-5), CI(-7)>>, <<Times(X(1), Tm), U(1)>>, <<CI(4), InfE>>, "control", FALSE, TRUE)
 ConOf(id) == CASE id = "k1" -> K1 [] id = "k2" -> K2 [] id = "k3" -> K3 [] id = "k4" -> K4
                [] id = "k5" -> K5 [] id = "k6" -> K6 [] id = "k7" -> K7 [] id = "k8" -> K8
                [] id = "k9" -> K9 [] id = "kA" -> KA [] id = "kB" -> KB [] id = "kR" -> KR [] id = "kS" -> KS [] id = "kV" -> KV [] id = "kM" -> KM [] id = "kMp" -> KMp
-               [] id = "kW" -> KW [] id = "kX" -> KX
+               [] id = "kW" -> KW [] id = "kX" -> KX [] id = "kC" -> KC [] id = "kD" -> KD
 
 (***************************************************************************)
 (* Objective terms.  Integrands live in d.quads and are referred to by     *)
